@@ -23,6 +23,7 @@ pub mod api;
 pub mod waitset;
 pub mod listeners;
 pub mod filter;
+pub mod ownership;
 
 #[derive(Clone, Debug, Serialize, Deserialize, PartialEq)]
 pub struct Violation {
@@ -81,6 +82,7 @@ pub fn all() -> Vec<ScenarioDef> {
     v.extend(waitset::defs());
     v.extend(listeners::defs());
     v.extend(filter::defs());
+    v.extend(ownership::defs());
     v
 }
 
